@@ -16,6 +16,8 @@ import Dawgs.Proofs.C15Tarjan
 import Dawgs.Proofs.C15Lift
 import Dawgs.Proofs.C15Sound
 import Dawgs.Proofs.C15TarjanFull
+import Dawgs.Proofs.C15Round3
+import Dawgs.Generated.C15Fresh
 namespace Dawgs.C15.Props
 open Dawgs.C15 Dawgs.C16
 
@@ -285,6 +287,101 @@ what plain BFS on the original graph gives.  (For the live code see `c15_full_re
 `putCursor`/`exact`, i.e. hooks/C15-fix.patch.) -/
 theorem c15_fixed : C15_stmt true := c15_fixed_of_tarjan tarjan_correct
 
+/-! ### 6. refinement to "no cache", node-level history independence -/
+
+/-- Component level: after ANY history, with ANY capacity, the cached `componentReachDFS` returns exactly what a
+fresh DFS that never caches anything returns. -/
+theorem reach_cache_refines_nocache (cg : CompGraph) (cap : Int) (hist : List (Nat × Dir)) (c : Nat) (d : Dir) :
+    answerAfter cg cap true hist c d = some (refReach cg c d) := by
+  obtain ⟨r, ha, he⟩ := reach_answers_exact_fixed cg cap hist c d
+  rw [ha, he.unique (refReach_exact cg c d)]
+
+/-- Public level: for every well-formed digraph, capacity and sequence of public calls the repaired
+ReachabilityCache returns, call by call, `refAns` — the answer computed with no cache and no history
+(BFS on the original graph for can-reach / reach / or-reach / xor-reach; the cache-free component reach for the
+slices). -/
+theorem public_answers_refine_nocache (g : Digraph) (hw : g.WF) (cap : Int) (ops : List Op) :
+    ∃ rc, RC.new g cap true = some rc ∧ rc.runOps ops = some (ops.map (refAns g rc.cg)) := by
+  obtain ⟨comps, lk, ht, hcert⟩ := tarjan_correct g hw
+  have hc : Cert g comps lk := ⟨hw, checkSCC_sound hcert, tarjan_lookup comps lk ht⟩
+  refine ⟨freshRC (componentGraphOf g comps lk) cap true, by simp [RC.new, newComponentGraph, ht, freshRC], ?_⟩
+  exact runOps_refAns hc _ rfl rfl ⟨sieveExact_new _ cap, sieveExact_new _ cap⟩ ops
+
+/-- **Independence of query order, count and cache capacity, for the public API**: the answer to a call `q` is
+the same after any two histories of public calls and under any two capacities (and it always arrives). -/
+theorem public_answers_history_independent (g : Digraph) (hw : g.WF) (cap1 cap2 : Int) (h1 h2 : List Op) (q : Op) :
+    ∃ rc1 rc2 a, RC.new g cap1 true = some rc1 ∧ RC.new g cap2 true = some rc2 ∧
+      (rc1.runOps (h1 ++ [q])).map List.getLast? = some (some a) ∧
+      (rc2.runOps (h2 ++ [q])).map List.getLast? = some (some a) := by
+  obtain ⟨comps, lk, ht, hcert⟩ := tarjan_correct g hw
+  have hc : Cert g comps lk := ⟨hw, checkSCC_sound hcert, tarjan_lookup comps lk ht⟩
+  have hnew : ∀ cap, RC.new g cap true = some (freshRC (componentGraphOf g comps lk) cap true) := fun cap => by
+    simp [RC.new, newComponentGraph, ht, freshRC]
+  have hrun : ∀ cap (h : List Op), ((freshRC (componentGraphOf g comps lk) cap true).runOps (h ++ [q])).map List.getLast? =
+      some (some (refAns g (componentGraphOf g comps lk) q)) := by
+    intro cap h
+    rw [runOps_refAns hc _ rfl rfl ⟨sieveExact_new _ cap, sieveExact_new _ cap⟩]
+    simp [freshRC]
+  exact ⟨_, _, _, hnew cap1, hnew cap2, hrun cap1 h1, hrun cap2 h2⟩
+
+/-! ### 7. results are fresh values: caller-side edits cannot change later answers -/
+
+abbrev RetRow := String × String × Bool × String × String × Bool
+abbrev MutRow := String × String × Bool × String × String × String
+
+/-- What the model assumes about value provenance in algo/*.go, as a decidable condition on the tables the extractor
+regenerates from the sources on every run (tools/extract/goext mode c15):
+(a) every bitmap RETURNED by an exported method of `ReachabilityCache` is freshly allocated (`NewBitmap64…`, `Clone()`,
+    a local only ever assigned such values, or the result of a function with that property, transitively);
+(b) per entry point the model's provenance (`modelProvFresh`) is the code's;
+(c) the only exported result that shares internal bitmaps is the documented `ReachSliceOfComponentContainingMember`;
+(d) every mutating bitmap call edits a parameter of its function, a fresh local, or — inside the DFS — a cursor's own reach;
+(e) `OrReach`/`XorReach` are present (the table is not vacuous). -/
+def freshnessOK (rets : List RetRow) (muts : List MutRow) : Bool :=
+  rets.all (fun r => !(r.2.1 == "ReachabilityCache" && r.2.2.1 && r.2.2.2.1 == "bitmap") || r.2.2.2.2.2) &&
+  ["ReachOfComponentContainingMember", "ReachSliceOfComponentContainingMember"].all (fun fn =>
+    let rows := rets.filter (fun r => r.1 == fn && r.2.1 == "ReachabilityCache")
+    !rows.isEmpty && (rows.all (·.2.2.2.2.2) == modelProvFresh fn)) &&
+  rets.all (fun r => !(r.2.1 == "ReachabilityCache" && r.2.2.1 && r.2.2.2.1 == "slice" && !r.2.2.2.2.2) ||
+    r.1 == "ReachSliceOfComponentContainingMember") &&
+  muts.all (fun m => m.2.2.2.2.1 == "param" || m.2.2.2.2.1 == "freshlocal" ||
+    (m.2.2.2.2.1 == "cursor" && (m.1 == "componentReachDFS" || m.1 == "Complete"))) &&
+  ["OrReach", "XorReach"].all (fun fn => muts.any (fun m => m.1 == fn && m.2.1 == "ReachabilityCache"))
+
+/-- T-tie: the current sources satisfy the provenance assumptions (re-checked against the regenerated table on every run). -/
+theorem results_fresh_fact : freshnessOK Generated.C15Fresh.returns Generated.C15Fresh.mutations = true := by decide
+
+/-- With fresh results, a caller may edit every value it received (results of `ReachOf…`, its own `OrReach`/`XorReach`
+accumulators) at any point of any script: all answers are those of the script without the edits — and hence, by
+`public_answers_refine_nocache`, the cache-free, history-free answers. -/
+theorem caller_edits_noninterference (g : Digraph) (hw : g.WF) (cap : Int) (ops : List OpM) :
+    ∃ rc, RC.new g cap true = some rc ∧ rc.runOpsM ops = some ((callsOf ops).map (refAns g rc.cg)) := by
+  obtain ⟨rc, h1, h2⟩ := public_answers_refine_nocache g hw cap (callsOf ops)
+  exact ⟨rc, h1, by rw [runOpsM_eq_runOps, h2]⟩
+
+/-! ### 8. the component graph the cache works on is acyclic -/
+
+/-- `NewComponentGraph` on Tarjan's output: every edge of the component digraph leads to a strictly smaller component
+id (Tarjan emits sinks first), for every well-formed digraph. -/
+theorem component_graph_topological (g : Digraph) (hw : g.WF) (comps : List (List Nat)) (lk : List (Nat × Nat))
+    (ht : tarjan g = some (comps, lk)) (a b : Nat) (h : b ∈ (componentGraphOf g comps lk).dg.outAdj a) : b < a := by
+  have hcert := tarjan_checkSCC hw comps lk ht
+  have hc : Cert g comps lk := ⟨hw, checkSCC_sound hcert, tarjan_lookup comps lk ht⟩
+  simp only [checkSCC, Bool.and_eq_true] at hcert
+  exact compGraph_edge_lt hc hcert.2 h
+
+/-- hence no cycle: no component is reachable from one of its successors -/
+theorem component_graph_acyclic (g : Digraph) (hw : g.WF) (comps : List (List Nat)) (lk : List (Nat × Nat))
+    (ht : tarjan g = some (comps, lk)) (a b : Nat) (h : b ∈ (componentGraphOf g comps lk).dg.outAdj a) :
+    ¬ Reach (componentGraphOf g comps lk).dg.outAdj b a := by
+  have hcert := tarjan_checkSCC hw comps lk ht
+  have hc : Cert g comps lk := ⟨hw, checkSCC_sound hcert, tarjan_lookup comps lk ht⟩
+  simp only [checkSCC, Bool.and_eq_true] at hcert
+  intro hr
+  have h1 := compGraph_edge_lt hc hcert.2 h
+  have h2 := compGraph_reach_le hc hcert.2 hr
+  omega
+
 /-! ### non-vacuity -/
 
 -- the certificate checker accepts Tarjan's output on a graph with a 3-cycle, a bridge, a 2-cycle, a self loop
@@ -313,6 +410,18 @@ example : ((RC.new f5Graph 8 true).bind (fun rc => rc.runOps [.reach 0 .outb, .r
 -- the certificate hypothesis of `c15_fixed_of_certificate` holds on the F5 graph and on the demo graph
 example : (tarjan f5Graph).map (fun p => checkSCC f5Graph p.1) = some true ∧
     (tarjan demoGraph).map (fun p => checkSCC demoGraph p.1) = some true := by decide
+-- the provenance condition is not trivially true: it rejects the table of the seeded variant C15-r2-1 (ReachOf… returning the
+-- internal membership bitmap of a terminal component, XorReach editing it without Clone)
+example : freshnessOK
+    [("ReachOfComponentContainingMember", "ReachabilityCache", true, "bitmap", "sharedcall:ComponentMembers", false),
+     ("ReachOfComponentContainingMember", "ReachabilityCache", true, "bitmap", "new", true),
+     ("ReachSliceOfComponentContainingMember", "ReachabilityCache", true, "slice", "sharedcall:componentReachToMemberReachSlice", false)]
+    [("OrReach", "ReachabilityCache", true, "Or", "param", "param:duplex"),
+     ("XorReach", "ReachabilityCache", true, "Remove", "other", "local(sharedcall:ReachOfComponentContainingMember)")]
+    = false := by decide
+-- and sharing is a real hazard: editing the membership bitmap a slice aliases changes a later answer
+example : ((RC.new f5Graph 8 true).bind (fun rc => (rc.callerEdit (.members 0) (fun _ => [])).runOps [.reach 1 .outb])) ≠
+    ((RC.new f5Graph 8 true).bind (fun rc => rc.runOps [.reach 1 .outb])) := by decide
 -- the acceptance predicate is not trivially true
 example : accepts f5Graph (.reach 2 .outb) (.set [1, 2]) = false ∧ accepts f5Graph (.reach 2 .outb) (.set [1, 2, 3]) = true ∧
     accepts f5Graph (.canReach 2 3 .outb) (.bool false) = false := by decide
